@@ -11,6 +11,7 @@ import (
 	"sync"
 
 	"github.com/virus-evolution/gofasta/pkg/fastaio"
+	"github.com/virus-evolution/gofasta/pkg/verifhook"
 
 	biogosam "github.com/biogo/hts/sam"
 )
@@ -246,6 +247,7 @@ func blockToPairwiseAlignment(cSR chan samRecords, cPair chan alignPair, cErr ch
 			pair.refname = string(group.records[0].Ref.Name())
 			pair.queryname = group.records[0].Name
 			pair.idx = group.idx
+			verifhook.Jitter("sam.blockToPairwiseAlignment", group.idx)
 			cPair <- pair
 
 		} else {
@@ -266,6 +268,7 @@ func blockToPairwiseAlignment(cSR chan samRecords, cPair chan alignPair, cErr ch
 			pair.refname = string(group.records[0].Ref.Name())
 			pair.idx = group.idx
 
+			verifhook.Jitter("sam.blockToPairwiseAlignment", group.idx)
 			cPair <- pair
 		}
 	}
@@ -304,6 +307,7 @@ func trimAlignment(trim bool, trimStart int, trimEnd int, cPairIn chan alignPair
 	if !trim {
 		// if no trimming is specified we take the whole sequence:
 		for pair := range cPairIn {
+			verifhook.Jitter("sam.trimAlignment", pair.idx)
 			cPairOut <- pair
 		}
 	} else {
@@ -318,6 +322,7 @@ func trimAlignment(trim bool, trimStart int, trimEnd int, cPairIn chan alignPair
 			pair.query = pair.query[adjTrimStart:adjTrimEnd]
 			pair.ref = pair.ref[adjTrimStart:adjTrimEnd]
 
+			verifhook.Jitter("sam.trimAlignment", pair.idx)
 			cPairOut <- pair
 		}
 	}
